@@ -1,6 +1,319 @@
-//! C06 — not built yet.
-use crate::rt::*;
+//! C06 — results stay valid, API variants agree bit-for-bit, bad operands are refused.
+//! (A) validity + variant agreement ride on BFV/BGV operation programs (prog::Machine) and on
+//!     CKKS programs (c03::CkksMachine);
+//! (B) refusal workload: exactly one corruption of an otherwise valid operand, every public
+//!     operation that takes that kind of operand must panic (= refuse).
 
-pub fn run(_cfg: &Cfg, _rep: &mut Report) -> PropMeta {
-    PropMeta { id: "C06", level: "exploration", rule: "not built", assumptions: vec![], exhaustive: false, floor: 1 }
+use crate::he::*;
+use crate::prog::*;
+use crate::props::c01::gen_plain;
+use crate::props::c02::{op_brief, program_spec};
+use crate::rt::*;
+use heathcliff::*;
+use serde_json::json;
+
+const P: &str = "C06";
+
+pub struct Obs<'a> { pub cfg: &'a Cfg, pub grp: &'a str, pub case: u64 }
+
+fn viol(o: &Obs, rep: &mut Report, op: &str, class: &str, kind: &str, detail: String, spec: &Spec, trace: &[String]) {
+    rep.violation(&format!("{}|{}|{}|{}", P, op, class, kind), format!("{} ; program: {:?} ; params {}", detail, trace, spec.describe()),
+        replay_json(o.cfg, o.grp, o.case, json!({"params": spec.describe(), "program": trace})));
+}
+
+/// independent validity predicate for a ciphertext produced by a public operation
+pub fn valid_ct(kit: &Kit, ct: &Ciphertext) -> Result<(), String> {
+    let Some(level) = kit.level_of(ct.parms_id()) else { return Err("parms id is not a data level of the context".into()) };
+    let qs = kit.level_qs(level);
+    let n = kit.n();
+    if !(ct.size() >= 2 && ct.size() <= 16) { return Err(format!("size {}", ct.size())); }
+    if ct.coeff_modulus_size() != qs.len() || ct.poly_modulus_degree() != n { return Err("dimension fields".into()); }
+    if ct.data().len() != ct.size() * qs.len() * n { return Err(format!("buffer length {} != {}", ct.data().len(), ct.size() * qs.len() * n)); }
+    for p in 0..ct.size() { for (i, &q) in qs.iter().enumerate() { for (j, &x) in ct.poly_component(p, i).iter().enumerate() {
+        if x >= q { return Err(format!("residue {} >= modulus {} at poly {} component {} index {}", x, q, p, i, j)); } } } }
+    match kit.spec.scheme {
+        SchemeType::CKKS => { if !(ct.scale().is_finite() && ct.scale() > 0.0) { return Err(format!("scale {}", ct.scale())); } if ct.correction_factor() != 1 { return Err("correction factor".into()); } }
+        SchemeType::BFV => { if ct.scale() != 1.0 || ct.correction_factor() != 1 { return Err(format!("scale {} cf {}", ct.scale(), ct.correction_factor())); } }
+        _ => { if ct.scale() != 1.0 || ct.correction_factor() == 0 || ct.correction_factor() >= kit.t() { return Err(format!("scale {} cf {}", ct.scale(), ct.correction_factor())); } }
+    }
+    if ct.contains_seed() { return Err("seed flag".into()); }
+    Ok(())
+}
+
+pub fn same_ct(a: &Ciphertext, b: &Ciphertext) -> bool {
+    a.data() == b.data() && a.size() == b.size() && a.parms_id() == b.parms_id() && a.is_ntt_form() == b.is_ntt_form()
+        && a.scale().to_bits() == b.scale().to_bits() && a.correction_factor() == b.correction_factor()
+        && a.coeff_modulus_size() == b.coeff_modulus_size() && a.poly_modulus_degree() == b.poly_modulus_degree()
+}
+
+/// one program step in all three forms; returns the result (if any) for the caller to push
+fn step_all_forms(o: &Obs, rep: &mut Report, m: &Machine, op: &Op, trace: &[String]) -> Option<Ciphertext> {
+    let scheme = m.kit.spec.scheme_name();
+    let ops = Machine::operands(op);
+    let aliased = ops.len() > 1 && ops.windows(2).any(|w| w[0] == w[1]);
+    let snapshot: Vec<Ciphertext> = ops.iter().map(|i| m.pool[*i].ct.clone()).collect();
+    let results: Vec<Result<Ciphertext, Panicked>> = FORMS.iter().map(|f| m.execute(op, *f)).collect();
+    for (k, i) in ops.iter().enumerate() {
+        if !same_ct(&snapshot[k], &m.pool[*i].ct) { viol(o, rep, op.name(), scheme, "operand_modified", "a read-only operand changed".into(), &m.kit.spec, trace); }
+    }
+    let cell = format!("{}|{}|size{}|L{}|{}{}", scheme, op.name(), m.pool[ops[0]].ct.size().min(9), m.pool[ops[0]].level, if m.pool[ops[0]].ct.is_ntt_form() { "ntt" } else { "coef" }, if aliased { "|aliased" } else { "" });
+    let oks: Vec<&Ciphertext> = results.iter().filter_map(|r| r.as_ref().ok()).collect();
+    if oks.len() != 3 {
+        if oks.is_empty() { rep.count("variants", "all_three_refused"); return None; } // C02 decides whether a refusal is legitimate
+        viol(o, rep, op.name(), scheme, "variants_disagree", format!("forms disagree on refusing: {:?}", results.iter().map(|r| r.as_ref().map(|_| "ok").map_err(|p| p.0.clone())).collect::<Vec<_>>()), &m.kit.spec, trace);
+        return None;
+    }
+    rep.count("variant_cells", &cell);
+    if !(same_ct(oks[0], oks[1]) && same_ct(oks[0], oks[2])) {
+        let which = if !same_ct(oks[0], oks[1]) { "inplace_vs_destination" } else { "inplace_vs_new" };
+        viol(o, rep, op.name(), &format!("{}|{}", scheme, which), "variants_differ", format!("results of the three forms are not bit-identical (sizes {} {} {}, levels equal {}, ntt {} {} {}, cf {} {} {})",
+            oks[0].size(), oks[1].size(), oks[2].size(), oks[0].parms_id() == oks[1].parms_id() && oks[0].parms_id() == oks[2].parms_id(), oks[0].is_ntt_form(), oks[1].is_ntt_form(), oks[2].is_ntt_form(),
+            oks[0].correction_factor(), oks[1].correction_factor(), oks[2].correction_factor()), &m.kit.spec, trace);
+    }
+    let r = oks[0].clone();
+    rep.count("validity", "checked");
+    if let Err(e) = valid_ct(m.kit, &r) { viol(o, rep, op.name(), scheme, "invalid_result", format!("result fails the independent validity predicate: {}", e), &m.kit.spec, trace); }
+    if !r.is_valid_for(&m.kit.ctx) { viol(o, rep, op.name(), &format!("{}|is_valid_for", scheme), "invalid_result", "result is not is_valid_for the context".into(), &m.kit.spec, trace); }
+    rep.eval(Some(&cell));
+    Some(r)
+}
+
+fn programs(cfg: &Cfg, grp: &str, case: u64, rng: &mut Rng, rep: &mut Report, ns: &[usize]) {
+    let Some(spec) = program_spec(rng, ns, None) else { return };
+    let Ok(kit) = Kit::new(&spec) else { return };
+    let o = Obs { cfg, grp, case };
+    let mut m = Machine::new(&kit, false);
+    let mut trace = vec![];
+    for _ in 0..4 {
+        let (_, c) = gen_plain(rng, m.n(), m.t());
+        if m.fresh(&c, rng.bool()).is_err() { return; }
+        let el = m.pool.last().unwrap();
+        if let Err(e) = valid_ct(&kit, &el.ct) { viol(&o, rep, "encrypt", spec.scheme_name(), "invalid_result", format!("fresh ciphertext invalid: {}", e), &spec, &trace); }
+    }
+    for _ in 0..rng.range(4, cfg.pick(12, 24)) {
+        // aliased operands on purpose now and then
+        let op = if rng.chance(1, 6) {
+            let a = rng.usize_below(m.pool.len());
+            let cand = match rng.below(3) { 0 => Op::Add(a, a), 1 => Op::Sub(a, a), _ => Op::Multiply(a, a) };
+            if m.applicable(&cand).is_none() { cand } else { continue }
+        } else { match m.random_op(rng) { Some(op) => op, None => break } };
+        trace.push(op_brief(&op));
+        if let Some(ct) = step_all_forms(&o, rep, &m, &op, &trace) {
+            let el = m.result_elem(&op, ct);
+            // keep only elements whose analytic noise is still fine, so programs stay meaningful
+            if m.within(el.e_an, el.level) || rng.chance(1, 4) { m.pool.push(el); }
+        }
+        if m.pool.len() > 20 { break; }
+    }
+    if case < 2 { rep.sample(json!({"group": grp, "case": case, "params": spec.describe(), "program": trace, "pool_sizes": m.pool.iter().map(|e| e.ct.size()).collect::<Vec<_>>()})); }
+}
+
+// ------------------------------------------------------------------------------ refusals
+#[derive(Clone, Copy, Debug, PartialEq)]
+pub enum Corr { ResidueEqQ, ResidueQPlus1, ResidueMax, ForeignIdRandom, ForeignIdOtherContext, KeyLevelId, Size1, Size17, BufferShort, BufferLong, BadScale, BadCfZero, BadCfLarge, Seeded }
+pub const CORRS: [Corr; 14] = [Corr::ResidueEqQ, Corr::ResidueQPlus1, Corr::ResidueMax, Corr::ForeignIdRandom, Corr::ForeignIdOtherContext, Corr::KeyLevelId, Corr::Size1, Corr::Size17,
+    Corr::BufferShort, Corr::BufferLong, Corr::BadScale, Corr::BadCfZero, Corr::BadCfLarge, Corr::Seeded];
+
+fn rebuild(ct: &Ciphertext, size: usize, data: Vec<u64>, id: ParmsID, scale: f64, cf: u64) -> Ciphertext {
+    Ciphertext::from_members(size, ct.coeff_modulus_size(), ct.poly_modulus_degree(), data, id, scale, cf, ct.is_ntt_form())
+}
+
+/// exactly one corruption of a valid ciphertext (None if not applicable to this context)
+pub fn corrupt_ct(kit: &Kit, other_ctx_id: &ParmsID, ct: &Ciphertext, c: Corr, rng: &mut Rng) -> Option<Ciphertext> {
+    let level = kit.level_of(ct.parms_id())?;
+    let qs = kit.level_qs(level);
+    let n = kit.n();
+    let mut x = ct.clone();
+    let pos = |rng: &mut Rng, x: &Ciphertext| -> (usize, usize, usize) { match rng.below(3) { 0 => (0, 0, 0), 1 => (x.size() - 1, qs.len() - 1, n - 1), _ => (rng.usize_below(x.size()), rng.usize_below(qs.len()), rng.usize_below(n)) } };
+    match c {
+        Corr::ResidueEqQ | Corr::ResidueQPlus1 | Corr::ResidueMax => {
+            let (p, i, j) = pos(rng, &x);
+            let v = match c { Corr::ResidueEqQ => qs[i], Corr::ResidueQPlus1 => qs[i] + 1, _ => u64::MAX };
+            // u64::MAX in word 0 of polynomial 1 of a size-2 ciphertext is the seed flag: that is the `Seeded` corruption
+            if v == u64::MAX && x.size() == 2 && p == 1 && i == 0 && j == 0 { return None; }
+            x.poly_component_mut(p, i)[j] = v;
+        }
+        Corr::ForeignIdRandom => { x.set_parms_id([rng.u64() | 1, rng.u64(), rng.u64(), rng.u64()]); }
+        Corr::ForeignIdOtherContext => { x.set_parms_id(*other_ctx_id); }
+        Corr::KeyLevelId => { if kit.ctx.key_parms_id() == kit.ctx.first_parms_id() { return None; } x.set_parms_id(*kit.ctx.key_parms_id()); }
+        Corr::Size1 => { let d = ct.data()[..qs.len() * n].to_vec(); x = rebuild(ct, 1, d, *ct.parms_id(), ct.scale(), ct.correction_factor()); }
+        Corr::Size17 => { let mut d = ct.data().clone(); d.resize(17 * qs.len() * n, 0); x = rebuild(ct, 17, d, *ct.parms_id(), ct.scale(), ct.correction_factor()); }
+        Corr::BufferShort => { let mut d = ct.data().clone(); d.pop(); x = rebuild(ct, ct.size(), d, *ct.parms_id(), ct.scale(), ct.correction_factor()); }
+        Corr::BufferLong => { let mut d = ct.data().clone(); d.push(0); x = rebuild(ct, ct.size(), d, *ct.parms_id(), ct.scale(), ct.correction_factor()); }
+        Corr::BadScale => { x.set_scale(if kit.spec.scheme == SchemeType::CKKS { 0.0 } else { 2.0 }); }
+        Corr::BadCfZero => { if kit.spec.scheme != SchemeType::BGV { x.set_correction_factor(0) } else { x.set_correction_factor(0) } }
+        Corr::BadCfLarge => { x.set_correction_factor(if kit.spec.scheme == SchemeType::BGV { kit.t() + 1 } else { 2 }); }
+        Corr::Seeded => { if x.size() != 2 { return None; } x.poly_component_mut(1, 0)[0] = u64::MAX; }
+    }
+    Some(x)
+}
+
+/// every public operation that takes a ciphertext; `second` = the corrupted one is the second operand
+pub fn ct_ops(kit: &Kit, rlk: Option<&RelinKeys>, gk: Option<&GaloisKeys>, good: &Ciphertext, bad: &Ciphertext, plain: &Plaintext) -> Vec<(&'static str, Result<(), Panicked>)> {
+    let ev = &kit.eval;
+    let mut v: Vec<(&'static str, Result<(), Panicked>)> = vec![];
+    macro_rules! t { ($name:expr, $body:expr) => { v.push(($name, lib(|| { let _ = $body; }))); } }
+    t!("negate_new", ev.negate_new(bad));
+    t!("negate_inplace", { let mut x = bad.clone(); ev.negate_inplace(&mut x) });
+    t!("add_new(bad,good)", ev.add_new(bad, good));
+    t!("add_new(good,bad)", ev.add_new(good, bad));
+    t!("add_inplace(good,bad)", { let mut x = good.clone(); ev.add_inplace(&mut x, bad) });
+    t!("sub_new(bad,good)", ev.sub_new(bad, good));
+    t!("sub(good,bad,dest)", { let mut d = Ciphertext::new(); ev.sub(good, bad, &mut d) });
+    t!("add_many([good,bad])", ev.add_many_new(&[good.clone(), bad.clone()]));
+    t!("multiply_new(bad,good)", ev.multiply_new(bad, good));
+    t!("multiply_new(good,bad)", ev.multiply_new(good, bad));
+    t!("square_new", ev.square_new(bad));
+    t!("add_plain_new", ev.add_plain_new(bad, plain));
+    t!("sub_plain_new", ev.sub_plain_new(bad, plain));
+    t!("multiply_plain_new", ev.multiply_plain_new(bad, plain));
+    if bad.is_ntt_form() { t!("transform_from_ntt_new", ev.transform_from_ntt_new(bad)); } else { t!("transform_to_ntt_new", ev.transform_to_ntt_new(bad)); }
+    if kit.levels.len() > 1 {
+        t!("mod_switch_to_next_new", ev.mod_switch_to_next_new(bad));
+        // switching to the level the operand is already on is a documented no-op: excluded
+        if bad.parms_id() != kit.ctx.last_parms_id() { t!("mod_switch_to_new(last)", ev.mod_switch_to_new(bad, kit.ctx.last_parms_id())); }
+        if kit.spec.scheme == SchemeType::CKKS { t!("rescale_to_next_new", ev.rescale_to_next_new(bad)); }
+    }
+    if let Some(rk) = rlk {
+        // relinearizing a size-2 ciphertext is a documented no-op; use a size-3 operand only
+        if bad.size() == 3 { t!("relinearize_new", ev.relinearize_new(bad, rk)); }
+    }
+    if let Some(g) = gk {
+        if bad.size() == 2 {
+            t!("apply_galois_new(3)", ev.apply_galois_new(bad, 3, g));
+            if kit.spec.scheme == SchemeType::CKKS {
+                if kit.n() >= 4 { t!("rotate_vector_new(1)", ev.rotate_vector_new(bad, 1, g)); }
+                t!("complex_conjugate_new", ev.complex_conjugate_new(bad, g));
+            } else if kit.batch.is_some() {
+                if kit.n() >= 4 { t!("rotate_rows_new(1)", ev.rotate_rows_new(bad, 1, g)); }
+                t!("rotate_columns_new", ev.rotate_columns_new(bad, g));
+            }
+        }
+    }
+    t!("decrypt_new", kit.dec.decrypt_new(bad));
+    if kit.spec.scheme != SchemeType::CKKS && !bad.is_ntt_form() { t!("invariant_noise_budget", kit.dec.invariant_noise_budget(bad)); }
+    v
+}
+
+fn refusals(cfg: &Cfg, grp: &str, case: u64, rng: &mut Rng, rep: &mut Report) {
+    let Some(spec) = program_spec(rng, &[4, 8, 16], None) else { return };
+    let Ok(kit) = Kit::new(&spec) else { return };
+    // a second, different context to borrow a foreign parms id from
+    let other = Spec { n: spec.n * 2, qs: match coeff_primes(spec.n * 2, &[40, 41], rng) { Some(q) => q, None => return }, ..spec.clone() };
+    let Ok(octx) = other.context() else { return };
+    let other_id = *octx.first_parms_id();
+    let o = Obs { cfg, grp, case };
+    let mut m = Machine::new(&kit, false);
+    let rlk = m.rlk.clone();
+    let gk = if kit.has_keyswitching() { lib(|| kit.keygen.create_galois_keys(false)).ok() } else { None };
+    let trace: Vec<String> = vec![];
+    // valid operand states: fresh, product (size 3), lower level
+    let (_, c0) = gen_plain(rng, m.n(), m.t());
+    let (_, c1) = gen_plain(rng, m.n(), m.t());
+    let (Ok(a), Ok(b)) = (m.fresh(&c0, true), m.fresh(&c1, false)) else { return };
+    let mut states: Vec<(String, Ciphertext, Ciphertext)> = vec![("fresh".into(), m.pool[a].ct.clone(), m.pool[b].ct.clone())];
+    if let Ok(p) = m.execute(&Op::Multiply(a, b), Form::New) { states.push(("size3".into(), p, m.pool[a].ct.clone())); }
+    if kit.levels.len() > 1 { if let (Ok(x), Ok(y)) = (m.execute(&Op::ModSwitchNext(a), Form::New), m.execute(&Op::ModSwitchNext(b), Form::New)) { states.push(("lower_level".into(), x, y)); } }
+    if m.bfv { if let (Ok(x), Ok(y)) = (m.execute(&Op::ToNtt(a), Form::New), m.execute(&Op::ToNtt(b), Form::New)) { states.push(("bfv_ntt".into(), x, y)); } }
+    let (_, pc) = gen_plain(rng, m.n(), m.t());
+    let plain = kit.plain_from_coeffs(&pc);
+    for (sname, victim, partner) in &states {
+        // sanity: the uncorrupted state must be accepted by at least negate (else the state itself is unusable)
+        if lib(|| kit.eval.negate_new(victim)).is_err() { rep.harness_errors.push(format!("valid state {} refused", sname)); continue; }
+        for &c in CORRS.iter() {
+            let Some(bad) = corrupt_ct(&kit, &other_id, victim, c, rng) else { continue };
+            for (opname, r) in ct_ops(&kit, rlk.as_ref(), gk.as_ref(), partner, &bad, &plain) {
+                rep.count("refusal_cells", &format!("{:?}|{}", c, opname));
+                rep.eval(Some(&format!("{}|{:?}|{}|{}", spec.scheme_name(), c, opname, sname)));
+                if r.is_ok() {
+                    viol(&o, rep, opname, &format!("{}|{:?}", spec.scheme_name(), c), "not_refused", format!("operand state {} with corruption {:?} was computed on instead of refused", sname, c), &spec, &trace);
+                }
+            }
+        }
+        // level mismatch and representation mismatch between two otherwise valid operands
+        if sname == "lower_level" {
+            let hi = &m.pool[a].ct;
+            for (opname, r) in [("add_new(levels differ)", lib(|| { kit.eval.add_new(hi, victim); })), ("sub_new(levels differ)", lib(|| { kit.eval.sub_new(victim, hi); })), ("multiply_new(levels differ)", lib(|| { kit.eval.multiply_new(hi, victim); }))] {
+                rep.count("refusal_cells", &format!("LevelMismatch|{}", opname));
+                if r.is_ok() { viol(&o, rep, opname, spec.scheme_name(), "not_refused", "operands of different levels were computed on".into(), &spec, &trace); }
+            }
+        }
+        if sname == "bfv_ntt" {
+            let coef = &m.pool[a].ct;
+            for (opname, r) in [("add_new(forms differ)", lib(|| { kit.eval.add_new(coef, victim); })), ("multiply_new(ntt form)", lib(|| { kit.eval.multiply_new(victim, partner); })), ("square_new(ntt form)", lib(|| { kit.eval.square_new(victim); })),
+                                ("add_plain_new(ntt ct, coef plain)", lib(|| { kit.eval.add_plain_new(victim, &plain); })), ("mod_switch_to_next_new(ntt form)", lib(|| { if kit.levels.len() > 1 { kit.eval.mod_switch_to_next_new(victim); } else { panic!("n/a") } })),
+                                ("decrypt_new(ntt form)", lib(|| { kit.dec.decrypt_new(victim); })), ("transform_to_ntt_new(already ntt)", lib(|| { kit.eval.transform_to_ntt_new(victim); }))] {
+                rep.count("refusal_cells", &format!("WrongRepresentation|{}", opname));
+                if r.is_ok() { viol(&o, rep, opname, spec.scheme_name(), "not_refused", "operand in a representation the operation does not accept was computed on".into(), &spec, &trace); }
+            }
+        }
+    }
+    // plaintext corruptions
+    let t = m.t(); let n = m.n();
+    let good_ct = &m.pool[a].ct;
+    let mut bad_plains: Vec<(&'static str, Plaintext)> = vec![];
+    { let mut p = plain.clone(); let l = p.coeff_count(); p.data_mut()[l - 1] = t; bad_plains.push(("coeff_eq_t", p)); }
+    { let mut p = plain.clone(); p.data_mut()[0] = u64::MAX; bad_plains.push(("coeff_max", p)); }
+    { let mut p = Plaintext::new(); p.resize(n + 1); p.data_mut()[n] = 1; bad_plains.push(("too_long", p)); }
+    { let mut p = plain.clone(); p.data_mut().push(0); bad_plains.push(("buffer_long", p)); }
+    if let Ok(pn) = lib(|| kit.eval.transform_plain_to_ntt_new(&plain, good_ct.parms_id())) {
+        let q0 = kit.level_qs(0)[0];
+        { let mut p = pn.clone(); p.data_mut()[0] = q0; bad_plains.push(("ntt_residue_eq_q", p)); }
+        { let mut p = pn.clone(); p.set_parms_id(other_id); bad_plains.push(("ntt_foreign_id", p)); }
+    }
+    for (pname, bp) in &bad_plains {
+        let ntt = bp.is_ntt_form();
+        let mut calls: Vec<(&'static str, Result<(), Panicked>)> = vec![];
+        calls.push(("multiply_plain_new", lib(|| { kit.eval.multiply_plain_new(good_ct, bp); })));
+        if !ntt {
+            calls.push(("add_plain_new", lib(|| { kit.eval.add_plain_new(good_ct, bp); })));
+            calls.push(("sub_plain_new", lib(|| { kit.eval.sub_plain_new(good_ct, bp); })));
+            calls.push(("encrypt_new", lib(|| { kit.enc.encrypt_new(bp); })));
+            calls.push(("encrypt_symmetric_new", lib(|| { kit.enc.encrypt_symmetric_new(bp); })));
+            calls.push(("transform_plain_to_ntt_new", lib(|| { kit.eval.transform_plain_to_ntt_new(bp, kit.ctx.first_parms_id()); })));
+            if let Some(be) = &kit.batch { calls.push(("BatchEncoder::decode_new", lib(|| { be.decode_new(bp); }))); }
+        }
+        for (opname, r) in calls {
+            rep.count("refusal_cells", &format!("plain:{}|{}", pname, opname));
+            rep.eval(Some(&format!("{}|plain:{}|{}", spec.scheme_name(), pname, opname)));
+            if r.is_ok() { viol(&o, rep, opname, &format!("{}|plain:{}", spec.scheme_name(), pname), "not_refused", format!("invalid plaintext ({}) was computed on instead of refused", pname), &spec, &trace); }
+        }
+    }
+    // unexpanded seeded public/relin/galois keys
+    if kit.has_keyswitching() {
+        if let (Ok(rs), Ok(p3)) = (lib(|| kit.keygen.create_relin_keys(true)), m.execute(&Op::Multiply(a, b), Form::New)) {
+            if rs.contains_seed() {
+                let r = lib(|| { kit.eval.relinearize_new(&p3, &rs); });
+                rep.count("refusal_cells", "SeededRelinKeys|relinearize_new");
+                if r.is_ok() { viol(&o, rep, "relinearize_new", &format!("{}|seeded_keys", spec.scheme_name()), "not_refused", "unexpanded seeded relinearization keys were used".into(), &spec, &trace); }
+            }
+        }
+        if let Ok(gs) = lib(|| kit.keygen.create_galois_keys(true)) {
+            if gs.contains_seed() {
+                let r = lib(|| { kit.eval.apply_galois_new(good_ct, 3, &gs); });
+                rep.count("refusal_cells", "SeededGaloisKeys|apply_galois_new");
+                if r.is_ok() { viol(&o, rep, "apply_galois_new", &format!("{}|seeded_keys", spec.scheme_name()), "not_refused", "unexpanded seeded Galois keys were used".into(), &spec, &trace); }
+            }
+        }
+    }
+    if let Ok(pks) = lib(|| kit.keygen.create_public_key(true)) {
+        if pks.contains_seed() {
+            let r = lib(|| { Encryptor::new(kit.ctx.clone()).set_public_key(pks.clone()); });
+            rep.count("refusal_cells", "SeededPublicKey|set_public_key");
+            if r.is_ok() { viol(&o, rep, "set_public_key", &format!("{}|seeded_keys", spec.scheme_name()), "not_refused", "unexpanded seeded public key was accepted".into(), &spec, &trace); }
+        }
+    }
+}
+
+pub fn run(cfg: &Cfg, rep: &mut Report) -> PropMeta {
+    run_cases(cfg, "programs", cfg.n(24000, 300000) as u64, rep, |i, rng, rep| programs(cfg, "programs", i, rng, rep, &[2, 4, 8, 16, 32]));
+    run_cases(cfg, "programs_mid", cfg.n(100, 2000) as u64, rep, |i, rng, rep| programs(cfg, "programs_mid", i, rng, rep, &[64, 256, 1024]));
+    run_cases(cfg, "refusals", cfg.n(3000, 40000) as u64, rep, |i, rng, rep| refusals(cfg, "refusals", i, rng, rep));
+    crate::props::c03::c06_hook(cfg, rep);
+    PropMeta {
+        id: "C06", level: "exploration",
+        rule: "(A) every step of random BFV/BGV/CKKS operation programs is executed in all three API forms (in-place on a clone, destination argument over a dirty destination, value-returning): results must be bit-identical, operands unchanged (also when one object is passed twice), result valid by is_valid_for and by an independent predicate; (B) single-field corruptions (residue = q, q+1, 2^64-1; foreign / other-context / key-level parms id; size 1 / 17; buffer one word short / long; scale; correction factor; unexpanded seed; level and representation mismatch; invalid plaintexts; seeded keys) x every public operation taking that operand: must panic. distinct = distinct (scheme, op, state) variant cells and (scheme, corruption, op, state) refusal cells",
+        assumptions: vec!["any panic counts as a refusal".into(), "calls that are documented no-ops (mod_switch_to the current level, relinearize at size 2, rotate by 0, add_many of one operand) are excluded".into()],
+        exhaustive: false, floor: 2000,
+    }
 }
